@@ -179,7 +179,9 @@ func c14Names(r *run.Run) {
 			} else {
 				s = c14Strings[c.Choose(len(c14Strings), "string")]
 			}
-			c.Sample(func() any { return map[string]any{"mac": l.mac, "language_id": l.id, "tag": l.tag, "name_id": id, "string": s} })
+			c.Sample(func() any {
+				return map[string]any{"mac": l.mac, "language_id": l.id, "tag": l.tag, "name_id": id, "string": s}
+			})
 			t := &name.Table{}
 			name.VerifSet(t, id, s)
 			if name.VerifGet(t, id) != s {
